@@ -74,19 +74,28 @@ def setup(ctx, model):
             return None
         return f
 
-    def open_(ev, a, k):
-        p = a[0]
-        return FileV([], p)
+    from ..fsmodel import FS, FileV as FileV2, TextOf
+    fs = FS(files={"output/writer_rules.yml": RULES_FILE.read_text()})
 
-    def safe_load(ev, a, k):
-        f = a[0]
-        path = f.path
-        if isinstance(path, PathV) and path.packaged:
-            return to_val(yaml.safe_load((REPO / "cij" / "data" / path.text).read_text()))
-        raise AnalysisError("yaml.safe_load of an unexpected file")
+    def yaml_load(check=None):
+        def f_(ev, a, k):
+            check(k) if check else k.all()
+            src_ = a[0]
+            if isinstance(src_, FileV2):
+                if src_.path.anchor != "packaged" or src_.lines is None:
+                    raise AnalysisError(f"YAML rules read from {src_.path!r}")
+                text = "".join(src_.lines[src_.pos:])
+            elif isinstance(src_, str):
+                text = src_
+            else:
+                raise AnalysisError("yaml loader applied to something that is not the opened rules file / its text")
+            return to_val(yaml.safe_load(text))
+        return f_
 
+    from ..sym import yaml_kw
+    intr.update(fs.intrinsics())
     intr.update({"qha.v2p.v2p": v2p_intrinsic, "qha.basic_io.out.save_x_tp": saver("save_x_tp"), "qha.basic_io.out.save_x_tv": saver("save_x_tv"),
-                 "builtins.open": open_, "yaml.safe_load": safe_load, "cij.data:get_data_fname": lambda ev, a, k: PathV(a[0], packaged=True)})
+                 "yaml.safe_load": yaml_load(), "yaml.full_load": yaml_load(), "yaml.load": yaml_load(yaml_kw)})
     ev = Ev(model, seeds, intr, attr_hook=qha_attr_hook, ctx=ctx)
     vol = ev.construct(VOLBASE, [calc], {})
     prs = ev.construct(PRSBASE, [calc], {})
@@ -346,8 +355,12 @@ def r_output(ctx, model):
     prs = Obj(PRSBASE, {"calculator": calc}, label="PRS")
     calc.attrs["volume_based_result"] = vol
     calc.attrs["pressure_based_result"] = prs
-    intr[f"{VOLBASE}.write_variables"] = lambda ev, a, k: log.append(("tv", a[1]))
-    intr[f"{PRSBASE}.write_variables"] = lambda ev, a, k: log.append(("tp", a[1]))
+    # write_variables of either interface (wherever the method is defined: the class itself, a shared base or a mixin)
+    for base_ref in (VOLBASE, PRSBASE):
+        owner, wf, _ = model.find_member(base_ref, "write_variables")
+        if wf is None:
+            raise AnalysisError(f"anchor vanished: {base_ref}.write_variables")
+        intr[f"{owner}.write_variables"] = lambda ev, a, k: log.append(("tv" if a[0].cls == VOLBASE else "tp" if a[0].cls == PRSBASE else a[0].cls, a[1]))
     for cfg, want in (({"pressure_base": "PB", "volume_base": "VB"}, {("tp", "PB"), ("tv", "VB")}), ({"pressure_base": "PB"}, {("tp", "PB")}),
                       ({"volume_base": "VB"}, {("tv", "VB")}), ({}, set())):
         del log[:]
@@ -358,16 +371,18 @@ def r_output(ctx, model):
                   explanation="an output section is written through the wrong interface, twice, or not at all", key=f"write_output.{'+'.join(sorted(cfg)) or 'none'}")
     # write_variables: one writer.write per entry, in order, on this interface
     for cref, nm in ((VOLBASE, "tv"), (PRSBASE, "tp")):
-        wf = model.func(f"{cref}.write_variables")
+        owner_, wf, _ = model.find_member(cref, "write_variables")
+        if wf is None:
+            raise AnalysisError(f"anchor vanished: {cref}.write_variables")
         seen = []
         ev0, _c, _v, _p, _calls = setup(ctx, model)
         intr2 = dict(ev0.intr)
         intr2[f"{WR}:ResultsWriter.write"] = lambda ev, a, k: seen.append((a[0].attrs.get("base"), a[1]))
         ev = Ev(model, seeds, intr2, ctx=ctx)
         base = vol if nm == "tv" else prs
-        ev.call_def(wf, model.mods["cij.core.calculator"], f"{cref}.write_variables", [base, Tup(["a", "b", DictV({"keyword": "c"})], "list")], {})
+        ev.call_def(wf, model.mods[owner_.split(":")[0]], f"{owner_}.write_variables", [base, Tup(["a", "b", DictV({"keyword": "c"})], "list")], {})
         ok = len(seen) == 3 and all(b is base for b, _ in seen) and [c for _, c in seen][:2] == ["a", "b"]
-        ctx.check(ok, f"{nm}.write_variables writes every entry through a writer bound to this interface", model.where(f"{cref}.write_variables", wf),
+        ctx.check(ok, f"{nm}.write_variables writes every entry through a writer bound to this interface", model.where(f"{owner_}.write_variables", wf),
                   expected="ResultsWriter(self).write(c) for each c", found=f"{len(seen)} writes", explanation="an output entry is skipped or written through another interface",
                   key=f"write_variables.{nm}")
     # installed writers drop exactly four guard rows
